@@ -12,8 +12,9 @@ for id in $IDS; do
   props=$(python3 -c "
 import json,sys
 m=json.load(open('seeded/$id/meta.json'))
-print('SKIP' if m.get('expected_silent') else ' '.join(p for p,r in m.get('checks_run',{}).items() if r.get('exit')==1))")
+print('SKIP' if m.get('expected_silent') else 'MISS' if m.get('known_miss') else ' '.join(p for p,r in m.get('checks_run',{}).items() if r.get('exit')==1))")
   [ "$props" = "SKIP" ] && { echo "$id: expected to stay silent (see meta.json)"; continue; }
+  [ "$props" = "MISS" ] && { echo "$id: recorded as not caught (see meta.json)"; continue; }
   [ -z "$props" ] && { echo "$id: no catching check recorded"; SILENT="$SILENT $id"; continue; }
   git -C "$REPO" apply $ROOT/seeded/$id/patch.diff || { echo "$id: patch does not apply"; SILENT="$SILENT $id(apply)"; continue; }
   for p in $props; do
